@@ -406,6 +406,15 @@ func (m *Machine) intercept(fn *ssa.Function, args []Val, caller *frame, site ss
 			m.noteBigWrite(args[0])
 			return args[0]
 		}
+	case "(*math/big.Int).SetUint64":
+		return func() Val {
+			c := m.concreteValue(args[1].(*Term), "big.SetUint64")
+			bigOf(m, args[0]).SetUint64(c)
+			m.noteBigWrite(args[0])
+			return args[0]
+		}
+	case "(*math/big.Int).IsUint64":
+		return func() Val { return Bool(bigOf(m, args[0]).IsUint64()) }
 	case "(*math/big.Int).SetInt64":
 		return func() Val {
 			c := m.concreteValue(args[1].(*Term), "big.SetInt64")
@@ -532,8 +541,10 @@ func (m *Machine) intercept(fn *ssa.Function, args []Val, caller *frame, site ss
 			return h
 		}
 	}
-	if name == "(*reflect.rtype).Name" || name == "(reflect.Type).Name" {
-		return nil
+	if strings.HasPrefix(name, "(*math/big.") || strings.HasPrefix(name, "(math/big.") {
+		// big numbers live in a side table: a method without a model must not
+		// run from its SSA on the placeholder struct
+		return func() Val { m.unmodelled("math/big method without a model: %s", name); return nil }
 	}
 	return nil
 }
@@ -792,10 +803,64 @@ func (m *Machine) format(f Val, args SliceV) *StrV {
 		taint = taint || t
 		allc = allc && c
 	}
-	if !allc {
-		return &StrV{S: "<message with symbolic arguments: " + fs + ">", T: taint}
+	if allc {
+		return &StrV{S: fmt.Sprintf(fs, nat...), T: taint}
 	}
-	return &StrV{S: fmt.Sprintf(fs, nat...), T: taint}
+	// some operand is symbolic: splice verb by verb (plain %s %v %q %d on
+	// strings and concrete operands; anything fancier gives an opaque message)
+	out := &StrV{}
+	argi := 0
+	i := 0
+	for i < len(fs) {
+		j := strings.IndexByte(fs[i:], '%')
+		if j < 0 {
+			out = strConcat(out, mkStr(fs[i:]))
+			break
+		}
+		out = strConcat(out, mkStr(fs[i:i+j]))
+		i += j
+		// parse the verb
+		k := i + 1
+		for k < len(fs) && strings.IndexByte("+-# 0123456789.", fs[k]) >= 0 {
+			k++
+		}
+		if k >= len(fs) {
+			return &StrV{S: "<message with symbolic arguments: " + fs + ">", T: taint}
+		}
+		verb := fs[i : k+1]
+		i = k + 1
+		if verb == "%%" {
+			out = strConcat(out, mkStr("%"))
+			continue
+		}
+		if argi >= args.Len {
+			out = strConcat(out, mkStr("%!"+verb[len(verb)-1:]+"(MISSING)"))
+			continue
+		}
+		a := args.A.E[args.Off+argi].V.(Iface)
+		v, c, _ := m.nativeArg(a)
+		argi++
+		if c {
+			out = strConcat(out, mkStr(fmt.Sprintf(verb, v)))
+			continue
+		}
+		sym := m.symbolicStringArg(a)
+		if sym == nil {
+			return &StrV{S: "<message with symbolic arguments: " + fs + ">", T: taint}
+		}
+		switch verb {
+		case "%s", "%v":
+			out = strConcat(out, sym)
+		case "%q":
+			// approximation: quoting without escapes (exact for strings
+			// without quotes, backslashes and non-printable bytes)
+			out = strConcat(strConcat(strConcat(out, mkStr("\"")), sym), mkStr("\""))
+		default:
+			return &StrV{S: "<message with symbolic arguments: " + fs + ">", T: taint}
+		}
+	}
+	out.T = out.T || taint
+	return out
 }
 
 func (m *Machine) formatPlain(args SliceV, ln bool) *StrV {
